@@ -342,6 +342,9 @@ def correspondence(ctx):
         if t[1] in ('c2s', 's2c', 'apc', 'aps', 'hf2c', 'hf2s', 'c2k'):
             return int(t[2]) * int(t[3]) > 1
         return True
+    # a rejection is a rejection: which exception class / message the implementation (or the model's label) uses must not matter
+    canon = lambda x: 'error' if isinstance(x, str) and x.startswith('error') else x
+    impl = [canon(x) for x in impl]; model = [canon(x) for x in model]
     common.compare(ctx, ops, impl, model, nontrivial=nontrivial)
     bloch_tie(ctx, rng)
     spectral_tie(ctx, rng)
